@@ -6,7 +6,7 @@ PLAN_ENTRY = {'stages': [
     {'name': 'circles',
      'mc': [{'module': 'MC_C11', 'cfg': {'quick': 'MC_C11_quick.cfg', 'thorough': 'MC_C11_thorough.cfg'}, 'workers': 4,
              'timeout': {'quick': 300, 'thorough': 1800}}],
-     'gens': ['gen_c11_random', 'gen_c11_near_equal'], 'trace': 'Trace_Circles',
+     'gens': ['gen_c11_random', 'gen_c11_near_equal', 'gen_c11_far_segments'], 'trace': 'Trace_Circles',
      'judge_timeout': {'quick': 600, 'thorough': 3600}}],
     'assumptions': [
         'TLC evaluates the L1 operators of Circles.tla correctly (their mutual consistency and their acceptance of the exact '
@@ -211,4 +211,19 @@ def gen_c11_near_equal(rnd, tier):
         h = {(1, 0): 1, (0, 1): 1, (3, 4): 5, (-4, 3): 5, (5, -12): 13, (-1, 0): 1, (-8, -15): 17}[(a, b)]
         dx, dy = k * r * a // h, k * r * b // h
         out.append({'m': 'circles', 'op': 'ccnear', 'q': 1, 'sc': rnd.choice((0, 0, -10, -20)), 'c0': [x0, y0, r], 'c1': [x0 + dx, y0 + dy, r + e]})
+    return out
+
+
+def gen_c11_far_segments(rnd, tier):
+    """segments that start 2^27 + 1 (and more) units from a small circle: squares of such coordinates are not exact in
+    double precision, so an implementation that subtracts them loses everything; the crossings themselves are small numbers"""
+    out = []
+    trip = [(5, 3, 4), (5, 4, 3), (5, 5, 0), (5, 6, 0), (13, 5, 12), (13, 12, 5), (13, 13, 0), (10, 0, 10), (17, 8, 15), (25, 7, 24)]
+    for _ in range(40 if tier == 'quick' else 400):
+        R, l, h = rnd.choice(trip)
+        l *= rnd.choice((1, -1))
+        far = rnd.choice((2 ** 27 + 1, 2 ** 27 + 3, 3 * 2 ** 26 + 1, 2 ** 28 + 5))
+        xe = rnd.choice((R + 3, h, 0, -1, h - 1, 2 * R))
+        out.append({'m': 'circles', 'op': 'segfar', 'q': 1024, 'sc': rnd.choice((0, 0, -3, 2)), 'c': [0, 0, R], 'lvl': l, 'h': h, 'far': far, 'xe': xe,
+                    'swap': rnd.randint(0, 1)})
     return out
